@@ -73,6 +73,18 @@ def run(repo, rep, tier):
     L.option_defaults_rule(repo, rep, "R10.1", ("implicit_i18n_translate",))
     L.option_forwarded_rule(repo, rep, "R10.1", ("implicit_i18n_attributes",))
     L.whitelist_rule(repo, rep, "R10.1", ("chameleon.i18n",))
+    # a bytes message id is decoded with the template's encoding before the
+    # translation function sees it
+    pr_ = repo.func("chameleon.zpt.template.PageTemplate.render")
+    decs = [c for w in ast.walk(pr_.node) if isinstance(w, ast.FunctionDef)
+            and w.name == "translate" for c in ast.walk(w)
+            if isinstance(c, ast.Call) and src(c.func) == "bytes.decode"]
+    rep.check(bool(decs) and all(
+        len(c.args) >= 2 and src(c.args[0]) == "msgid" and
+        src(c.args[1]) == "encoding" for c in decs), "R10.2", pr_.qualname,
+        "the wrapper decodes a bytes message id with the configured "
+        "encoding", construct="msgid-decoded-with-encoding",
+        where=L.where(pr_))
     # "what it returns is what appears in the output", for attributes too:
     # after an attribute's value is computed nothing rewrites it (escaping
     # happens inside the conversion, before the translation is applied)
